@@ -63,7 +63,8 @@ def run(ctx: Context, col) -> None:
             f"multi-index is {show_norm(args[0]) if args else None}; it must be VECTOR - MINS because the dimensions are MAXS - MINS + 1 "
             "(the raw vector maps listed vectors to wrong rows whenever MINS != 0)", text="ravel_multi_index(tuple(vector - mins), ...)")
     dims_want = T_add(T_sub(MAXS, MINS), K(1))
-    ok4 = len(args) >= 2 and args[1] == dims_want and kws.get("mode") == ("const", "clip")
+    from .solverterms import elementwise_same
+    ok4 = len(args) >= 2 and elementwise_same(I, args[1], dims_want) and kws.get("mode") == ("const", "clip")
     col.add("R19.4", construct, file, fn.lineno, ok4,
             "dimensions == MAXS - MINS + 1, mode='clip'" if ok4 else
             f"dimensions {show_norm(args[1]) if len(args) > 1 else None}, mode {kws.get('mode')}", text="dims and mode")
@@ -87,7 +88,7 @@ def run(ctx: Context, col) -> None:
         lo, hi = ranges[3][2]
         count = T_sub(hi, lo)
         dim_j = I.elem(args[1], j) if len(args) > 1 else None
-        ok2 = dim_j is not None and count == dim_j
+        ok2 = dim_j is not None and (count == dim_j or elementwise_same(I, args[1], ("lam", j, "dim", count)))
         col.add("R19.2", construct, file, fn.lineno, ok2,
                 "arange count per dimension == dimensions entry" if ok2 else
                 f"arange count {show_norm(count)} differs from the dimensions entry {show_norm(dim_j) if dim_j else None}",
